@@ -1237,7 +1237,7 @@ def r16_2(chk, repo):
         for d0 in dts:
             for inplace in (False, True):
                 for keep in (False, True):
-                    what = "byteswap(%r, inplace=%s, keep_dtype=%s) on a %s-endian host" % (d0, inplace, keep, _hostname(host))
+                    what = "byteswap(<array of %r>, inplace=%s, keep_dtype=%s) on a %s-endian host" % (d0, inplace, keep, _hostname(host))
                     st, a, r = _conv_case(repo, fi, host, d0, inplace, keep)
                     if st == "unrec":
                         for k in keys:
@@ -1298,7 +1298,7 @@ def _bytes_in_target(repo, fi, combos, pass_flags=True):
         for inplace, keep in combos:
             st, a, r = _conv_case(repo, fi, host, d0, inplace, keep, pass_flags)
             res = r if pass_flags else a
-            what = "%s(%r%s) on a %s-endian host" % (fi.name, d0, ", inplace=%s, keep_dtype=%s" % (inplace, keep) if pass_flags else "", _hostname(host))
+            what = "%s(<array of %r>%s) on a %s-endian host" % (fi.name, d0, ", inplace=%s, keep_dtype=%s" % (inplace, keep) if pass_flags else "", _hostname(host))
             if st == "unrec":
                 return None, "%s: %s" % (what, r)
             if st == "raise":
@@ -1360,7 +1360,7 @@ def _forwarding_by_model(chk, repo, name):
             for inplace, keep in COMBOS:
                 d0 = mk_plain(host, order)
                 st, a, r = _conv_case(repo, fi, host, d0, inplace, keep)
-                what = "%s(%r, inplace=%s, keep_dtype=%s) on a %s-endian host" % (name, d0, inplace, keep, _hostname(host))
+                what = "%s(<array of %r>, inplace=%s, keep_dtype=%s) on a %s-endian host" % (name, d0, inplace, keep, _hostname(host))
                 if st == "unrec":
                     agg.add(None, "%s: %s" % (what, r))
                 elif st == "raise" or not isinstance(r, MArray):
@@ -1481,7 +1481,7 @@ def r16_6(chk, repo, rule="R16.6", only=None):
                 st, a, r = _conv_case(repo, fi, host, d0, True, True, flags)
                 if st != "ok":
                     res[host] = None
-                    a_host.add(None if st == "unrec" else False, "%s(%r) on a %s-endian host: %s" % (fi.name, d0, _hostname(host), r))
+                    a_host.add(None if st == "unrec" else False, "%s(<array of %r>) on a %s-endian host: %s" % (fi.name, d0, _hostname(host), r))
                 else:
                     res[host] = a.buf.swaps % 2
             if None not in res.values():
@@ -1499,7 +1499,7 @@ def r16_6(chk, repo, rule="R16.6", only=None):
             for lay in ("plain", "X", "NX", "VB"):
                 d0 = mk_dtype(host, lay, order) if lay != "plain" else mk_plain(host, order)
                 st, a, r = _conv_case(repo, fi, host, d0, True, False, False)
-                what = "to_native_inplace(%r) on a %s-endian host" % (d0, _hostname(host))
+                what = "to_native_inplace(<array of %r>) on a %s-endian host" % (d0, _hostname(host))
                 if st != "ok":
                     agg.add(None if st == "unrec" else False, "%s: %s" % (what, r))
                     continue
